@@ -14,9 +14,9 @@ PROPERTY CountersMonotone
 """
 STEP_TEXT = {'PUSHNAT': 'PUSH nat 7', 'PUSHOPT': 'PUSH (option nat) (Some 1)', 'PUSHNONE': 'PUSH (option nat) None', 'PUSHSTR': 'PUSH string "k"', 'EMPTYBM': 'EMPTY_BIG_MAP string nat', 'UPDATE': 'UPDATE',
              'BEGIN': 'BEGIN Unit {}', 'CDR': 'CDR', 'NILOP': 'NIL operation', 'PAIR': 'PAIR', 'COMMIT': 'COMMIT', 'DROP': 'DROP', 'DROPALL': 'DROP_ALL',
-             'STORAGE': 'storage (big_map string nat)', 'PARAMBM': 'parameter (big_map string nat)', 'BEGINPTR': 'BEGIN 5 {}'}
+             'STORAGE': 'storage (big_map string nat)', 'PARAMBM': 'parameter (big_map string nat)', 'BEGINPTR': 'BEGIN 5 {}', 'SAPLING': 'SAPLING_EMPTY_STATE 8'}
 STEPS = {'push': ['PUSHNAT'], 'newbm': ['EMPTYBM'], 'newbm2': ['EMPTYBM', 'PUSHOPT', 'PUSHSTR', 'UPDATE'], 'upd': ['PUSHOPT', 'PUSHSTR', 'UPDATE'], 'del': ['PUSHNONE', 'PUSHSTR', 'UPDATE'], 'begin': ['BEGIN'],
-         'commit': ['CDR', 'PUSHOPT', 'PUSHSTR', 'UPDATE', 'NILOP', 'PAIR', 'COMMIT'], 'drop': ['DROP'], 'dropall': ['DROPALL'], 'storage': ['STORAGE'], 'parambm': ['PARAMBM'], 'beginptr': ['BEGINPTR']}
+         'commit': ['CDR', 'PUSHOPT', 'PUSHSTR', 'UPDATE', 'NILOP', 'PAIR', 'COMMIT'], 'drop': ['DROP'], 'dropall': ['DROPALL'], 'storage': ['STORAGE'], 'parambm': ['PARAMBM'], 'beginptr': ['BEGINPTR'], 'sap': ['SAPLING']}
 
 
 # how a failing cell fails: a plain FAILWITH, a FAILWITH inside a DIP body (the interpreter hides items while the body runs),
@@ -26,7 +26,8 @@ FAIL_STYLES = [['PUSH string "boom"', 'FAILWITH'],
                ['PUSH nat 1', 'DIP { ' + ' ; '.join(['DROP'] * 8) + ' }'],
                ['PUSH nat 1', 'PUSH nat 2', 'DIP 2 { PUSH string "boom" ; FAILWITH }'],
                ['PUSH nat 4', 'COMMIT'],            # the helper instruction itself is the failing one (COMMIT wants the result pair, not a nat)
-               ['PUSH nat 3', 'PUSH address 0x05aabb']]     # a malformed optimized literal: the error carries bytes (execute() itself raises while reporting it)
+               ['PUSH nat 3', 'PUSH address 0x05aabb'],
+               ['PUSH nat 6', 'OPEN_CHEST']]        # a primitive the interpreter does not implement, reached after the cell has already changed the stack     # a malformed optimized literal: the error carries bytes (execute() itself raises while reporting it)
 
 
 def cell_text(c, fp, style=0):
@@ -53,7 +54,7 @@ def item_abs(item):
         if b.prim == 'big_map' and a.prim == 'list':
             return ('res', b.ptr)
         return ('pair',)
-    return {'nat': ('nat',), 'option': ('opt',), 'string': ('str',), 'list': ('ops',)}.get(prim, (prim,))
+    return {'nat': ('nat',), 'option': ('opt',), 'string': ('str',), 'list': ('ops',), 'sapling_state': ('sap',)}.get(prim, (prim,))
 
 
 def bm_contents(item):
@@ -69,9 +70,24 @@ def bm_contents(item):
     return tuple(out)
 
 
+def unbound(interp):
+    """values on the stack that refer to a context (big_map, sapling_state) and are bound to another one than the session's current context"""
+    out = []
+    def walk(x):
+        c = getattr(x, 'context', None)
+        if c is not None and c is not interp.context:
+            out.append(getattr(x, 'prim', '?'))
+        for y in getattr(x, 'items', []) if getattr(x, 'prim', None) in ('pair', 'list', 'option') else []:
+            if y is not None and not isinstance(y, tuple):
+                walk(y)
+    for x in interp.stack.items:
+        walk(x)
+    return tuple(out)
+
+
 def observe(interp):
     ctx = interp.context
-    return {'bm_contents': tuple(bm_contents(x) for x in interp.stack.items), 'stack': tuple(item_abs(x) for x in interp.stack.items), 'protected': getattr(interp.stack, 'protected', 0), 'tmp': ctx.tmp_big_map_index, 'alloc': ctx.alloc_big_map_index,
+    return {'unbound': unbound(interp), 'sapling': getattr(ctx, 'alloc_sapling_index', None), 'bm_contents': tuple(bm_contents(x) for x in interp.stack.items), 'stack': tuple(item_abs(x) for x in interp.stack.items), 'protected': getattr(interp.stack, 'protected', 0), 'tmp': ctx.tmp_big_map_index, 'alloc': ctx.alloc_big_map_index,
             'orig': ctx.origination_index, 'big_maps': dict(ctx.big_maps)}
 
 
@@ -126,7 +142,7 @@ def compare(ctx, st):
     # (2) after every surviving cell the session with failing cells equals the session without them
     surv = [o for (c, fp), o in zip(hist, with_f) if fp == -1]
     for k, (a, b) in enumerate(zip(surv, without)):
-        for field in ('stack', 'protected', 'bm_contents', 'tmp', 'alloc', 'orig', 'big_maps', 'commit'):
+        for field in ('stack', 'protected', 'bm_contents', 'unbound', 'sapling', 'tmp', 'alloc', 'orig', 'big_maps', 'commit'):
             if a[field] != b[field]:
                 ctx.mismatch('C22:differs-from-failure-free-session:%s' % field,
                              '%s: after surviving cell #%d, %s = %r with the failing cells, %r without them' % (desc, k + 1, field, a[field], b[field]), case)
@@ -138,7 +154,7 @@ def compare(ctx, st):
     prev = None
     for (c, fp), o in zip(hist, with_f):
         if fp != -1 and prev is not None:
-            for field in ('stack', 'protected', 'bm_contents', 'tmp', 'alloc', 'orig', 'big_maps'):
+            for field in ('stack', 'protected', 'bm_contents', 'unbound', 'sapling', 'tmp', 'alloc', 'orig', 'big_maps'):
                 if o[field] != prev[field]:
                     ctx.mismatch('C22:failing-cell-changed:%s' % field, '%s: failing cell %r changed %s from %r to %r' % (desc, cell_text(c, fp), field, prev[field], o[field]), case)
                     ok = False
